@@ -173,7 +173,7 @@ def o3_link(ctx, count, pipe, pl, rate, via, reenter=False):
 
 
 def o3_pingpong(ctx, pipe, pl, reply):
-    """two transceivers: each reads on `pipe` (0 or 1) at its own address and transmits to the peer's.  A -> B two payloads; B
+    """two transceivers: each reads on `pipe` at its own address and transmits to the peer's.  A -> B two payloads; B
     answers (send_only: its RX FIFO is not its business) BEFORE reading them; then both sides read: everything handed to
     send() arrives byte-for-byte, once, in order, in both directions"""
     dynamic = pl is None
@@ -185,8 +185,20 @@ def o3_pingpong(ctx, pipe, pl, reply):
     med.add(rb)
     chan = ctx.int("channel", 0, 125)
     addr_a, addr_b = ctx.bytes("addrA", 5), ctx.bytes("addrB", 5)
+    if pipe >= 2:  # pipes 2..5 share bytes 1..4 with pipe 1: the effective address is own first byte + pipe 1's upper bytes
+        from vsym.core import SBytes
+        base_a, base_b = ctx.bytes("baseA", 5), ctx.bytes("baseB", 5)
+        ctx.assume(s_and(addr_a[0] != base_a[0], addr_b[0] != base_b[0]))
+        a.open_rx_pipe(1, base_a)
+        b.open_rx_pipe(1, base_b)
+        own_a, own_b = addr_a[:1], addr_b[:1]
+        addr_a = [addr_a[0]] + blist(base_a)[1:]
+        addr_b = [addr_b[0]] + blist(base_b)[1:]
+        addr_a, addr_b = (SBytes(addr_a), SBytes(addr_b)) if ctx.symbolic else (bytes(addr_a), bytes(addr_b))
+    else:
+        own_a, own_b = addr_a, addr_b
     ctx.assume(s_not(bytes_eq(blist(addr_a), blist(addr_b))))
-    for n, own, peer in ((a, addr_a, addr_b), (b, addr_b, addr_a)):
+    for n, own, peer in ((a, own_a, addr_b), (b, own_b, addr_a)):
         n.channel = chan
         if dynamic:
             n.dynamic_payloads = True
@@ -251,7 +263,7 @@ def jobs(tier):
         out.append(Job("O3-link", o3_link, dict(count=c, pipe=p, pl=pl, rate=r, via=v), cost=5 * c))
     for p, pl in ((1, None), (3, 5), (0, 32)):
         out.append(Job("O3-link-after-context-re-entry", o3_link, dict(count=2, pipe=p, pl=pl, rate=1, via="send", reenter=True), cost=10))
-    for pipe in (0, 1):
+    for pipe in ((0, 1, 5) if tier == "quick" else range(6)):
         for pl in ((None, 4) if tier == "quick" else (None, 1, 4, 32)):
             for reply in ("list", "single") if tier == "quick" else ("list", "list_kw", "single"):
                 out.append(Job("O3-link-both-directions", o3_pingpong, dict(pipe=pipe, pl=pl, reply=reply), cost=12))
